@@ -81,6 +81,7 @@ pub fn spec(id: &str) -> Option<Spec> {
             batches: vec![
                 b("history", scen::queue::history, 4000, 80_000),
                 b("blocking", scen::queue::blocking_history, 4000, 80_000),
+                b("owning", scen::c19::owning_honest, 3000, 60_000),
                 heavy("wrap", scen::queue::wrap_history, 48, 512),
             ],
             extras: vec![],
@@ -118,12 +119,37 @@ pub fn spec(id: &str) -> Option<Spec> {
             real: vec!["virtio_drivers::device::blk::VirtIOBlk", "VirtQueue, Transport::begin_init/finish_init/read_consistent", "MmioTransport / PciTransport (when drawn)"],
             stubbed: vec!["device: reference block device (sim/src/devices/blk.rs) on the reference virtqueue core", "platform: SimHal"],
         },
+        "C19" => Spec {
+            id: "C19",
+            level: "exploration",
+            rule: "OwningQueue (6 SIZE x BUFFER_SIZE shapes, handler succeeding / declining / failing), VirtIOInput::pop_pending_event and VirtIOSound::latest_notification against an event-source device that completes posted buffers in scheduler-chosen order, in bursts, with written lengths 0..BUFFER_SIZE; non-trivial = more events than the queue size were delivered and the stock level returned to the queue size",
+            batches: vec![
+                b("owning", scen::c19::owning_honest, 6000, 150_000),
+                b("owning_lying", scen::c19::owning_lying, 2000, 50_000),
+                b("input", scen::c19::input_run, 3000, 80_000),
+                b("sound_events", scen::c19::sound_run, 2000, 50_000),
+            ],
+            extras: vec![],
+            assumptions: vec!["VirtIOSocket's receive path is exercised by the C17/C18 scenarios"],
+            real: vec!["virtio_drivers::queue::OwningQueue", "VirtIOInput::new/pop_pending_event", "VirtIOSound::new/latest_notification", "VirtQueue"],
+            stubbed: vec!["device: event-source personality (sim/src/devices/events.rs)", "platform: SimHal", "transport: model / real MMIO / real PCI"],
+        },
+        "C15" => Spec {
+            id: "C15",
+            level: "exploration",
+            rule: "seeded interleavings of device input chunks (1..4096 bytes), recv(peek), recv(pop), read, fill_buf+consume, read_ready, ack_interrupt, send/send_bytes/write/write_str, size/emergency_write on VirtIOConsole over model/MMIO/PCI transports; the device fills the posted buffer at scheduler-chosen moments (between calls, inside notify, at store and spin points); non-trivial = at least one blocking read returned data",
+            batches: vec![b("stream", scen::c15::run, 8000, 200_000)],
+            extras: vec![],
+            assumptions: vec!["blocking reads are only issued while the device still has bytes to deliver or the driver holds unread bytes", "read_ready/recv polling alone never re-posts a drained buffer: recorded as an observation, not part of the statement"],
+            real: vec!["virtio_drivers::device::console::VirtIOConsole incl. embedded-io Read/BufRead/ReadReady/Write and fmt::Write", "VirtQueue"],
+            stubbed: vec!["device: reference console (sim/src/devices/console.rs)", "platform: SimHal"],
+        },
         _ => return None,
     };
     Some(s)
 }
 
-pub const ALL: &[&str] = &["C01", "C02", "C03", "C04", "C05", "C06", "C10", "C14"];
+pub const ALL: &[&str] = &["C01", "C02", "C03", "C04", "C05", "C06", "C10", "C14", "C15", "C19"];
 
 pub fn find_batch(prop: &str, batch: &str) -> Option<fn()> {
     spec(prop)?.batches.iter().find(|b| b.name == batch).map(|b| b.f)
